@@ -184,22 +184,45 @@ def run_property(prop, tier, seed, only_fn=None, verbose=False):
     with ctx.Pool(16) as pool:
         pending = 0
 
+        outstanding = {}          # what has been handed to the pool and not come back: a stalled worker is named, not waited for
+        stall_s = float(os.environ.get('VERIF_STALL_S', '900' if tier == 'quick' else '2700'))
+        stalled = False
+
         def submit_path(k, prefix):
             nonlocal pending
             pending += 1
+            tok = ('path', k, tuple(prefix))
+            outstanding[tok] = time.time()
             pool.apply_async(_path_worker, ((k, prefix, timeout_ms, confirm),),
-                             callback=lambda r: done.put(('path', r)),
-                             error_callback=lambda e: done.put(('error', e)))
+                             callback=lambda r, tok=tok: (outstanding.pop(tok, None), done.put(('path', r))),
+                             error_callback=lambda e, tok=tok: (outstanding.pop(tok, None), done.put(('error', e))))
 
         def submit_job(j):
             nonlocal pending
             pending += 1
-            pool.apply_async(smt.discharge_one, (j,), callback=lambda r: done.put(('smt', r)),
-                             error_callback=lambda e: done.put(('error', e)))
+            tok = ('smt', j['id'])
+            outstanding[tok] = time.time()
+            pool.apply_async(smt.discharge_one, (j,), callback=lambda r, tok=tok: (outstanding.pop(tok, None), done.put(('smt', r))),
+                             error_callback=lambda e, tok=tok: (outstanding.pop(tok, None), done.put(('error', e))))
         for k in keys:
             submit_path(k, [])
         while pending:
-            kind, r = done.get()
+            try:
+                kind, r = done.get(timeout=stall_s)
+            except queue.Empty:
+                # nothing has come back for stall_s seconds: a worker hangs (symbolic execution or a solver call that ignores
+                # its time-out).  What is outstanding is reported as undecided; the pool is abandoned
+                stalled = True
+                for tok in list(outstanding):
+                    if tok[0] == 'path':
+                        fres[tok[1]]['problems'].append({'kind': 'engine', 'msg': 'path worker did not return within %.0f s (prefix %s)'
+                                                         % (stall_s, '.'.join(map(str, tok[2])) or 'root')})
+                    else:
+                        by_id[tok[1]] = {'id': tok[1], 'status': 'unknown', 'solver': None, 'time_s': stall_s, 'model': None,
+                                         'tried': [('stall', 'unknown(worker did not return)', stall_s)]}
+                print('note: %d task(s) did not return within %.0f s; reported as undecided' % (len(outstanding), stall_s), file=sys.stderr)
+                pool.terminate()
+                break
             pending -= 1
             if kind == 'error':
                 raise RuntimeError('worker failed: %r' % (r,))
@@ -247,6 +270,9 @@ def run_property(prop, tier, seed, only_fn=None, verbose=False):
         retry_deadline = time.time() + float(os.environ.get('VERIF_RETRY_BUDGET_S', '300' if tier == 'quick' else '1800'))
         retry = [dict(j, timeout_ms=j['timeout_ms'] * 6) for j in jobs
                  if not j['expect_sat'] and (by_id[j['id']]['status'] not in ('unsat', 'sat') or by_id[j['id']].get('tentative'))]
+        if stalled:
+            retry = []
+            retry_deadline = 0
         if len(retry) > retry_max:
             print('note: %d obligations open after the first solver pass; no long retries' % len(retry), file=sys.stderr)
             retry = []
